@@ -510,7 +510,7 @@ class GroupedAxisLikeFresh(Contract):
             yield "unflatten-restores-the-original", S.is_dimarray(result) and tuple(result.dims) == ("g0", "g1") and same(result.values, a.values) and \
                 all(list(r.values) == list(o.values) for r, o in zip(result.axes, a.axes))
             return
-        fresh = S.da.DimArray(np.array(f.values, dtype=float), axes=[(f.dims[0], [tuple(t) for t in f.axes[0].values])])
+        fresh = S.da.DimArray(np.array(f.values, dtype=float, order="C"), axes=[(f.dims[0], [tuple(t) for t in f.axes[0].values])])
         expected = self._apply(env, fresh)
         if S.is_dimarray(expected):
             yield "answers-like-a-freshly-constructed-array", S.is_dimarray(result) and tuple(result.dims) == tuple(expected.dims) and same(result.values, expected.values) \
@@ -627,7 +627,8 @@ class HistoryLikeFresh(Contract):
             return
 
         def fresh_of(r):
-            f = da.DimArray(np.array(r.values), axes=[(ax.name, np.array(ax.values)) for ax in r.axes])
+            # (freshly constructed = from the plain nested values: C-ordered memory, whatever layout the producer left behind)
+            f = da.DimArray(np.array(r.values, order="C"), axes=[(ax.name, np.array(ax.values)) for ax in r.axes])
             f.attrs.update(copy.deepcopy(dict(r.attrs)))
             for fa, ra in zip(f.axes, r.axes):
                 fa.attrs.update(copy.deepcopy(dict(ra.attrs)))
